@@ -137,6 +137,13 @@ def jobs_c09(tier):
                     js.append((h_rpad, (cls, dims, t, clip, False), 600))
             js.append((h_rpad, (cls, dims, 2, True, True), 600))
             js.append((h_rpad, (cls, dims, 2, False, True), 600))
+    ax0 = [('ListOffsetArray64', (2, 0, 1)), ('ListArray64', (1, 2)), ('RegularArray', (2, 2)), ('UnmaskedArray', (3,)), ('IndexedOptionArray64', (0, 1, 0))]
+    if tier != 'quick':
+        ax0 += [('ListOffsetArray64', (0,)), ('RegularArray', (0, 3)), ('UnmaskedArray', (0,)), ('UnmaskedArray', (1,)), ('IndexedOptionArray64', (1, 1)), ('IndexedOptionArray64', (0, 0, 0, 0))]
+    for cls, dims in ax0:
+        for t in ((1, 5) if tier == 'quick' else (0, 1, 2, 3, 5)):
+            for clip in (False, True):
+                js.append((h_rpad_axis0, (cls, dims, t, clip), 600))
     return js
 
 
@@ -756,3 +763,61 @@ def h_reduce_local(lens):
 def jobs_c03(tier):
     shapes = [(2,), (0, 3), (2, 0, 1)] if tier == 'quick' else [l for n in (1, 2, 3) for l in itertools.product(range(4), repeat=n)]
     return [(h_reduce_local, (l,), 600) for l in shapes]
+
+
+# ------------------------------------------------------------------------------------------------ C09: padding along axis 0
+def build_unmasked(nc, n, name='node'):
+    fo, sz, al, fields = nc.layout_of('UMA', '_ZNK7awkward13UnmaskedArray6lengthEv')
+    nc.m.assume(nc.lencontent == n)
+    cells = nc.content_header(name, nc.vptr_of('N7awkward13UnmaskedArrayE', 'UMA'))
+    cells.update({fo[1]: (nc.content0, 8), fo[1] + 8: (NULL, 8)})
+    return nc.m.record(name, cells, const=True), [Elem(BV(i)) for i in range(n)]
+
+
+def any_node(nc, cls, dims):
+    """-> (this, nested value, short mangled name, replay(model, lc) -> (program head, python value))"""
+    if cls in ('ListOffsetArray64', 'ListArray64', 'RegularArray'):
+        this, lists, starts, offs, short = list_node(nc, cls, dims)
+        return this, lists, short, (lambda model, lc: node_program(nc, model, lc))
+    if cls == 'UnmaskedArray':
+        this, vals = build_unmasked(nc, dims[0])
+        return this, vals, '13UnmaskedArray', (lambda model, lc: ('i64 %s unmasked ' % fullnative.ints(range(dims[0])), list(range(dims[0]))))
+    if cls == 'IndexedOptionArray64':
+        pattern = tuple(bool(x) for x in dims)
+        this, idx = build_option64(nc, pattern)
+        vals = [NONE if miss else Elem(idx[i]) for i, miss in enumerate(pattern)]
+
+        def rp(model, lc):
+            iv = [model.eval(x, model_completion=True).as_signed_long() for x in idx]
+            lc2 = max([lc] + [v + 1 for v in iv])
+            return 'i64 %s option64 %s ' % (fullnative.ints(range(lc2)), fullnative.ints(iv)), [None if v < 0 else v for v in iv]
+        return this, vals, '14IndexedArrayOfIlLb1EE', rp
+    raise Unsupported(cls)
+
+
+@guard
+def h_rpad_axis0(cls, dims, target, clip):
+    """rpad / rpad_and_clip along axis 0 (the node's own entries): max(length, target) entries (exactly target with clip), the original entries
+    first and unchanged, None after them"""
+    meth = 'rpad_and_clip' if clip else 'rpad'
+    nc = NodeCtx(['LOA', 'LA', 'RA', 'IA', 'UMA', 'IDX', 'CNT', 'UTL', 'KD', 'IDS'], [], unwind=max(10, target + 12))
+    this, vals, short, rp = any_node(nc, cls, dims)
+    fn = '_ZNK7awkward%s%d%sElll' % (short, len(meth), meth)
+    nc.m.record('ret', {})
+    out = nc.m.call(fn, [Ptr('ret', 0), this, BV(target), BV(0), BV(0)])
+    obls = [('%s does not raise' % meth, out.raised)]
+    want = py_pad(vals, target, clip, NONE)
+    for g, res in nodeh.decode_cases(nc, out.mem, nc.m.cell('ret', 0)):
+        if res is None:
+            obls.append(('a result is returned', z3.And(g, z3.Not(out.raised))))
+        else:
+            obls += [(nm, z3.And(g, c)) for nm, c in compare(value(res), want)]
+
+    def replay(model, ent):
+        lc = model.eval(nc.lencontent, model_completion=True).as_signed_long()
+        if lc > 200:
+            return False, 'content too long to replay (%d)' % lc, {}
+        head, inp = rp(model, lc)
+        return akrun_check(head + '%s %d 0' % ('rpadclip' if clip else 'rpad', target), py_pad(inp, target, clip, None), '%s %s::%s(%d, axis=0)' % (cls, inp, meth, target))
+    return mdischarge(nc.m, '%s::%s axis=0 shape=%s target=%d' % (cls, meth, ','.join(map(str, dims)), target), obls, [], replay=replay, prefer=[nc.lencontent <= 24],
+                      extra=dict(bounds='shape %s and target %d concrete (case split), buffer contents symbolic' % (dims, target)))
